@@ -202,6 +202,29 @@ def functional_case():
     return fn
 
 
+def qcvar_functional_case(dim_none):
+    """quadratic_cvar (bisect replaced by its contract stub) leaves the caller's sample untouched, so a second criterion on the same
+    tensor sees the same data"""
+    from harness.stubs import patched_bisect
+    from pfhedge.nn import functional as F
+
+    def fn(c):
+        c.env["log10_decade"] = 0
+        x = api.tensor(c, "x", (3,) if dim_none else (3, 2), lo=-3, hi=3)
+        snap = snapshot(x)
+        with patched_bisect(c, name="quadratic_cvar->bisect", check_preconditions=False):
+            F.quadratic_cvar(x, api.real(c, "lam", lo=1, hi=20), dim=None if dim_none else 0)
+        unchanged(c, "quadratic_cvar leaves x", x, snap)
+        es1 = F.expected_shortfall(x, 0.5, dim=0)
+        F.expected_shortfall(x, 1.0, dim=0)
+        F.value_at_risk(x, 0.4, dim=0)
+        F.isoelastic_utility(api.tensor(c, "wealth", (2,), pos=True), 0.5)
+        unchanged(c, "ES/VaR leave x", x, snap)
+        c.check("a second expected_shortfall on the same tensor is equal", api.tensor_eq(es1, F.expected_shortfall(x, 0.5, dim=0)))
+
+    return fn
+
+
 def training_history_case(seq):
     """histories that include price / compute_loss / fit on one hedger, then hedging B: equal to a fresh hedger holding the
     same (possibly trained) parameters"""
@@ -312,6 +335,9 @@ def cases():
     for f, k in (("underlier_spot", "brownian"), ("variance", "heston"), ("volatility", "localvol"), ("underlier_log_spot", "brownian")):
         cs.append(Case("passthrough/%s" % f, passthrough_case(f, k), encodes=enc, bounds="N=2 T=3, torch.nn.Identity model, single feature"))
     cs.append(Case("functional", functional_case(), encodes=enc, bounds="tensors up to (2,2,3)", timeout=60))
+    for dn in (True, False):
+        cs.append(Case("functional/quadratic_cvar/dim=%s" % ("None" if dn else "0"), qcvar_functional_case(dn), encodes=enc + ("quadratic_cvar",),
+                       bounds="sample (3,) / (3,2), spread in [1,10), bisect contract stub", timeout=60))
     seqs2 = [("hedgeA",), ("plA", "hedgeB"), ("plA", "plA"), ("inputA", "plB"), ("critA", "hedgeA")]
     for sq in seqs2:
         for sw in (False, True):
